@@ -12,6 +12,7 @@ Pipeline (see docs/C03.md):
                translations 0..1e6, 2D and 3D
 """
 import ast
+import re
 import math
 import os
 import warnings
@@ -570,6 +571,24 @@ def _eps_compares(fn):
     return sorted(res, key=lambda r: r[3])
 
 
+TSOFT = [('spatialmath/base/vectors.py', 'unitvec_norm'), ('spatialmath/base/vectors.py', 'iszerovec'), ('spatialmath/base/vectors.py', 'iszero'),
+         ('spatialmath/base/vectors.py', 'isunitvec'), ('spatialmath/base/vectors.py', 'isunittwist'), ('spatialmath/base/vectors.py', 'isunittwist2'),
+         ('spatialmath/base/vectors.py', 'unittwist_norm'), ('spatialmath/base/vectors.py', 'unittwist2_norm'),
+         ('spatialmath/base/transformsNd.py', 'iseye'), ('spatialmath/base/transformsNd.py', 'skew'), ('spatialmath/base/transformsNd.py', 'vex'),
+         ('spatialmath/base/transformsNd.py', 'rodrigues'), ('spatialmath/base/transforms3d.py', 'trlog'), ('spatialmath/base/transforms3d.py', 'trexp'),
+         ('spatialmath/base/transforms2d.py', 'trexp2'), ('spatialmath/base/transforms2d.py', 'trlog2')]
+_TSOFT_STOP = {'unitvec_norm', 'iszerovec', 'iszero', 'isunitvec', 'isunittwist', 'isunittwist2', 'unittwist_norm', 'unittwist2_norm', 'iseye', 'skew',
+               'vex', 'rodrigues', 'trlog', 'trexp', 'trexp2', 'trlog2'}
+
+
+def _tsoft_same(nm):
+    from lib import tsoft
+    for rel, q in TSOFT:
+        if q == nm:
+            return tsoft.same_thresholds(REPO, 'C03', rel, q, _TSOFT_STOP - {q})
+    return False, None, None
+
+
 def tconst(ctx):
     """returns dict field -> integer threshold factor; raises TConstError when the model no longer corresponds"""
     fns = {}
@@ -592,6 +611,11 @@ def tconst(ctx):
     for nm, fn in fns.items():
         tests, flags = _guards(fn, inline=False)
         etests, eflags = EXPECTED_GUARDS_PLAIN[nm]
+        if (tests != etests or flags != eflags) and _tsoft_same(nm)[0]:
+            # restructured (helpers extracted, guards hoisted into locals, ...) but every numeric threshold of the function and of the
+            # same-module helpers it calls is the recorded one: not a broken tie by itself -- the execution correspondence decides
+            soft_diff.append(f"{nm}: guards (thresholds unchanged)")
+            continue
         if tests != etests or flags != eflags:
             extra = [t for t in tests if tests.count(t) > etests.count(t)] + [f for f in flags if f not in eflags]
             missing = [t for t in etests if etests.count(t) > tests.count(t)] + [f for f in eflags if f not in flags]
@@ -612,6 +636,12 @@ def tconst(ctx):
     for nm, (field, op, side) in SITES.items():
         cmps = _eps_compares(fns[nm])
         if len(cmps) != 1:
+            same, found, _b = _tsoft_same(nm)
+            ks = [m for m in (re.fullmatch(r'cmp (\w+) (?:\w+=)?(\d+)\*eps', t) for t in (found or [])) if m]
+            if same and len(ks) == 1 and ks[0].group(1) == op:
+                K[field] = int(ks[0].group(2))
+                soft_diff.append(f"{nm}: threshold comparison moved into a helper (value and operator unchanged)")
+                continue
             raise TConstError(f"{nm}: expected exactly one comparison with k*_eps, found {len(cmps)}")
         o, k, s, _ = cmps[0]
         if o != op or s != side:
@@ -620,6 +650,8 @@ def tconst(ctx):
             raise TConstError(f"{nm}: threshold factor {k!r} is not a positive integer literal")
         K[field] = k
     for nm, field in SAME_DEFAULT.items():
+        if any(x.startswith(nm + ':') for x in soft_diff) and _tsoft_same(nm)[0]:
+            continue
         d = _defaults(fns[nm]).get('tol')
         if d != K[field]:
             raise TConstError(f"{nm}: default tol={d!r} differs from {field}={K[field]} which the model uses for it")
